@@ -32,9 +32,9 @@ def rel_ok(got, want, tol=1e-12):
     return all(abs(g - w) <= tol * scale for g, w in zip(got, want))
 
 
-def make(n, routine, na, ty, ig, soft, box=None):
+def make(n, routine, na, ty, ig, soft, box=None, G=1.0):
     sim = rebound.Simulation()
-    sim.G = 1.0
+    sim.G = G
     sim.softening = soft
     if box:
         sim.configure_box(box[0], box[1], box[2], box[3])
@@ -73,9 +73,9 @@ def images(sim):
     return [(gx * b.x, gy * b.y, gz * b.z) for gx in (-1, 0, 1) for gy in (-1, 0, 1) for gz in (-1, 0, 1)]
 
 
-def probe(res, cfg, acts, routine, soft, box=None):
+def probe(res, cfg, acts, routine, soft, box=None, G=1.0):
     n, na, ty, ig = cfg["n"], cfg["na"], cfg["type"], cfg["ign"]
-    sim = make(n, routine, na, ty, ig, soft, box)
+    sim = make(n, routine, na, ty, ig, soft, box, G)
     A = set(map(tuple, acts))
     s2 = soft * soft
     for j in range(n):
@@ -89,13 +89,13 @@ def probe(res, cfg, acts, routine, soft, box=None):
                 for gb in images(sim):
                     kx = kernel(gb[0] + sim.particles[i].x - sim.particles[j].x, gb[1] + sim.particles[i].y - sim.particles[j].y,
                                 gb[2] + sim.particles[i].z - sim.particles[j].z, s2)
-                    want = [want[0] + kx[0], want[1] + kx[1], want[2] + kx[2]]
+                    want = [want[0] + G * kx[0], want[1] + G * kx[1], want[2] + G * kx[2]]
                 ok = rel_ok(acc[i], want)
             else:
                 want = [0.0, 0.0, 0.0]
                 ok = acc[i] == (0.0, 0.0, 0.0)
             if not ok and len(res["violations"]) < 30:
-                res["violations"].append({"routine": routine, "cfg": cfg, "softening": soft, "box": box, "source": j, "target": i,
+                res["violations"].append({"routine": routine + ("" if G == 1.0 else " (G = %g)" % G), "cfg": cfg, "softening": soft, "box": box, "source": j, "target": i,
                                           "in_specified_set": (i, j) in A, "got": acc[i], "want": want})
     # all active: mass-weighted accelerations cancel (Newton's third law), sampled with distinct masses
     if (na == -1 or na == n) and n >= 2 and ig == 0:
@@ -122,7 +122,8 @@ def merc_probe(res, cfg, merc0, mode):
     if n < 2:
         return
     sim = rebound.Simulation()
-    sim.G = 1.0
+    GG = 2.0 if (n + (0 if na == -1 else na)) % 2 else 1.0       # the constant of gravity enters every term once
+    sim.G = GG
     sim.add(m=1.0)
     for i in range(1, n):
         x, y, z = pos(i)
@@ -159,7 +160,7 @@ def merc_probe(res, cfg, merc0, mode):
                 if (i, j) in S0:
                     w = max(DC(i), DC(j))
                     k3 = kernel(sim.particles[i].x - sim.particles[j].x, sim.particles[i].y - sim.particles[j].y, sim.particles[i].z - sim.particles[j].z, 0.0)
-                    want = [w * c for c in k3]
+                    want = [GG * w * c for c in k3]
                     ok = rel_ok(got, want)
                 else:
                     want = [0.0, 0.0, 0.0]
@@ -191,10 +192,10 @@ def merc_probe(res, cfg, merc0, mode):
                 got = (sim.particles[i].ax, sim.particles[i].ay, sim.particles[i].az)
                 k3 = kernel(sim.particles[i].x - sim.particles[j].x, sim.particles[i].y - sim.particles[j].y, sim.particles[i].z - sim.particles[j].z, 0.0) if i != j else (0, 0, 0)
                 if j == 0:
-                    want = list(k3)                                   # the star, full weight
+                    want = [GG * c for c in k3]                        # the star, full weight
                 elif (i, j) in S0 and i != j:
                     w = 1.0 - max(DC(i), DC(j))     # complementary weight with the SAME critical radius
-                    want = [w * c for c in k3]
+                    want = [GG * w * c for c in k3]
                 else:
                     want = [0.0, 0.0, 0.0]
                 if not rel_ok(got, want) and len(res["violations"]) < 30:
@@ -212,7 +213,8 @@ def trace_probe(res, row):
     n, na, ty = cfg["n"], cfg["na"], cfg["type"]
     Na = n if na == -1 else na
     sim = rebound.Simulation()
-    sim.G = 1.0
+    GG = 2.0 if row["v"] % 2 else 1.0
+    sim.G = GG
     sim.add(m=1.0)
     for i in range(1, n):
         sim.add(m=1e-3 if i < Na else 0.0, x=10.0 * i, vy=0.3 / math.sqrt(i))
@@ -244,7 +246,7 @@ def trace_probe(res, row):
         for i in range(n):
             got = (sim.particles[i].ax, sim.particles[i].ay, sim.particles[i].az)
             if (i, j) in want_int:
-                want = list(kernel(sim.particles[i].x - sim.particles[j].x, sim.particles[i].y - sim.particles[j].y, sim.particles[i].z - sim.particles[j].z, 0.0))
+                want = list(GG * c_ for c_ in kernel(sim.particles[i].x - sim.particles[j].x, sim.particles[i].y - sim.particles[j].y, sim.particles[i].z - sim.particles[j].z, 0.0))
                 ok = rel_ok(got, want)
             else:
                 want = [0.0, 0.0, 0.0]
@@ -273,7 +275,7 @@ def trace_probe(res, row):
                 if i == 0:
                     want = [0.0, 0.0, 0.0]                      # heliocentric: the star feels nothing
                 elif j == 0 or (i, j) in want_kep:
-                    want = list(kernel(sim.particles[i].x - sim.particles[j].x, sim.particles[i].y - sim.particles[j].y, sim.particles[i].z - sim.particles[j].z, 0.0))
+                    want = list(GG * c_ for c_ in kernel(sim.particles[i].x - sim.particles[j].x, sim.particles[i].y - sim.particles[j].y, sim.particles[i].z - sim.particles[j].z, 0.0))
                 else:
                     want = [0.0, 0.0, 0.0]
                 if not rel_ok(got, want) and len(res["violations"]) < 30:
@@ -428,12 +430,14 @@ def main():
         res["cfgs"] += 1
         for routine in ("basic", "compensated"):
             probe(res, cfg, row["acts"], routine, 0.0)
+            if stride == 1 or k % 2:
+                probe(res, cfg, row["acts"], routine, 0.0, G=2.5)        # the constant of gravity enters every term once
         if cfg["n"] >= 3 and cfg["ign"] == 0:
             probe(res, cfg, row["acts"], "basic", 0.75)                     # softening
             probe(res, cfg, row["acts"], "basic", 0.0, (8.0, 1, 1, 2))      # ghost images, non-cubic box
         if cfg["na"] in (-1, cfg["n"]) and cfg["ign"] == 0 and cfg["type"] == 0 and cfg["n"] >= 2:
             probe(res, cfg, row["acts"], "tree", 0.0)
-            probe(res, cfg, row["acts"], "tree", 0.75)
+            probe(res, cfg, row["acts"], "tree", 0.75, G=2.5)
             if cfg["n"] >= 3:
                 probe(res, cfg, row["acts"], "tree", 0.0, (8.0, 1, 1, 2))
         if cfg["ign"] == 0 and cfg["n"] >= 3 and (cfg["na"] == -1 or cfg["na"] >= 1):
